@@ -59,7 +59,11 @@ def main():
         else:
             base = DEFAULT_BASE
             try:
-                base = json.load(open(f"{d}/verify.json")).get("base", base)
+                vj = json.load(open(f"{d}/verify.json"))
+                base = vj.get("base", base)
+                if base == "HEAD":
+                    # verified at the HEAD of its day; the commit it was written against is recorded separately
+                    base = vj.get("written_against", DEFAULT_BASE)
             except Exception:
                 pass
             if base == "HEAD":
